@@ -2,7 +2,8 @@
 
 mode "pipeline": drives the real outrank.core_ranking.mixed_rank_graph (entry "mrg") or
     compute_batch_ranking (entry "cbr", with a recording wrapper around mixed_rank_graph so the harness sees the
-    frame that was actually ranked) with a serial fake pool, an args namespace carrying the defaults of
+    frame that was actually ranked) with the pool the case asks for -- a serial fake pool exposing the attributes of a
+    pathos pool (ncpus / nodes as given) or a real pathos ProcessingPool(nodes) --, an args namespace carrying the defaults of
     outrank/__main__.py, and module globals reset between cases.  One line `@@CASE <idx> <json>` per case
     (flushed, so a crash identifies the case), then `@@RESULT {"done": n}`.
 mode "oracle": library oracles on the MODEL's code vectors (does not import outrank):
@@ -62,14 +63,59 @@ class FakeResult:
 
 
 class FakePool:
+    """serial stand-in for pathos.multiprocessing.ProcessingPool: same public attributes (ncpus, nodes, amap, map,
+    imap, uimap, pipe, apipe, close, join, clear, restart, terminate), work done in-process, results ready at once"""
+
+    def __init__(self, ncpus=1):
+        self.ncpus = ncpus
+        self.nodes = ncpus
+        self._id = "fake"
+
     def __enter__(self):
         return self
 
     def __exit__(self, *a):
-        return False
+        return
 
-    def amap(self, f, xs):
-        return FakeResult([f(x) for x in xs])
+    def amap(self, f, *xs):
+        return FakeResult([f(*x) for x in zip(*xs)])
+
+    def map(self, f, *xs):
+        return [f(*x) for x in zip(*xs)]
+
+    def imap(self, f, *xs):
+        return iter([f(*x) for x in zip(*xs)])
+
+    uimap = imap
+
+    def pipe(self, f, *a, **k):
+        return f(*a, **k)
+
+    def apipe(self, f, *a, **k):
+        return FakeResult(f(*a, **k))
+
+    def close(self):
+        pass
+
+    join = clear = restart = terminate = close
+
+
+def make_pool(spec):
+    """-> (pool, release): the pool is built the way outrank.task_ranking builds it (ProcessingPool(num_threads))"""
+    spec = spec or {}
+    if spec.get("kind") == "real":
+        from pathos.multiprocessing import ProcessingPool as Pool
+        pool = Pool(int(spec.get("nodes", 2)))
+
+        def release():
+            try:
+                pool.close()
+                pool.join()
+                pool.clear()
+            except Exception:
+                pass
+        return pool, release
+    return FakePool(int(spec.get("ncpus", 1))), (lambda: None)
 
 
 class Quiet:
@@ -116,7 +162,9 @@ def pipeline(payload):
         cr.GLOBAL_PRIOR_COMB_COUNTS = Counter()
         cr.IGNORED_VALUES = set()
         a = dict(defaults)
-        a.update(task="ranking", data_source="csv-raw", data_path="unused", subsampling=1, num_threads=1,
+        spec = case.get("pool") or {}
+        a.update(task="ranking", data_source="csv-raw", data_path="unused", subsampling=1,
+                 num_threads=int(spec.get("nodes", spec.get("ncpus", 1))),
                  disable_tqdm="True", heuristic=case["heuristic"], label_column=case["label"],
                  target_ranking_only="True" if case["target_only"] else "False",
                  interaction_order=int(case.get("interaction_order", 1)))
@@ -125,24 +173,28 @@ def pipeline(payload):
         cols = case["cols"]
         n = len(cols[0]) if cols else 0
         rows = [[cols[j][i] for j in range(len(cols))] for i in range(n)]
+        release = lambda: None
         try:
             seen.clear()
+            pool, release = make_pool(case.get("pool"))
             if case.get("entry", "mrg") == "cbr":
                 cr.mixed_rank_graph = recording_mrg
                 try:
-                    res = cr.compute_batch_ranking(rows, set(), args, FakePool(), list(names), Quiet(), Quiet())[0]
+                    res = cr.compute_batch_ranking(rows, set(), args, pool, list(names), Quiet(), Quiet())[0]
                 finally:
                     cr.mixed_rank_graph = real_mrg
                 frame = {"names": seen.get("names"), "cols": seen.get("cols")}
             else:
                 df = pd.DataFrame(rows, columns=list(names))
-                res = real_mrg(df, args, FakePool(), Quiet())
+                res = real_mrg(df, args, pool, Quiet())
                 frame = None
             trip = [[str(t[0]), str(t[1]), jfloat(t[2])] for t in res.triplet_scores]
             out = {"ok": True, "triplets": trip, "frame": frame}
         except Exception as e:  # an outcome, judged by the harness
             import traceback
             out = {"ok": False, "error": "%s: %s" % (type(e).__name__, e), "trace": traceback.format_exc()[-1500:]}
+        finally:
+            release()
         sys.stdout.write("@@CASE %d %s\n" % (idx, json.dumps(out)))
         sys.stdout.flush()
     print("@@RESULT " + json.dumps({"done": len(payload["cases"])}))
